@@ -19,7 +19,8 @@ def _chunk_worker(args):
     impl = pi.stdout.split("\n")
     model = pm.stdout.split("\n")
     st = {"n": len(lines), "mismatch": [], "oracle_fail": [], "unchecked": 0, "nontrivial": set(),
-          "clamped": 0, "pushed_left": 0, "queries": 0, "pushes": 0, "incomplete": [], "harness_rc": pi.returncode}
+          "clamped": 0, "pushed_left": 0, "queries": 0, "pushes": 0, "incomplete": [], "harness_rc": pi.returncode,
+          "passed_gt32": 0, "passed_gt64": 0, "passed_gt128": 0, "maxpassed": 0, "maxcells": 0, "repeated_queries": 0}
     rlc = []
     rlc_idx = []
     parsed = {}
@@ -29,7 +30,10 @@ def _chunk_worker(args):
         mparts = ml.rsplit("|", 1)
         mres = mparts[0].strip() if len(mparts) == 2 else ml
         mchk = mparts[1].strip() if len(mparts) == 2 else "?"
-        if il.strip() != mres:
+        # the harness appends " | maxpassed badop" (its own reading of the C++ object's state around each getCost)
+        iparts = [x.strip() for x in il.split("|")]
+        ires = " | ".join(iparts[:2]) if len(iparts) >= 2 else il.strip()
+        if " ".join(ires.split()) != " ".join(mres.split()):
             if len(st["mismatch"]) < 20:
                 st["mismatch"].append((line, il, mres))
             else:
@@ -44,9 +48,10 @@ def _chunk_worker(args):
             st["oracle_fail"].append((line, il, "did not return a placement (abort/throw/crash)"))
             continue
         try:
-            pls, cs = il.split("|")
+            pls, cs = iparts[0], iparts[1]
             pl = [int(x) for x in pls.split()]
             costs = [int(x) for x in cs.split()]
+            maxpassed, badop = [int(x) for x in iparts[2].split()] if len(iparts) > 2 else (0, -1)
         except ValueError:
             st["oracle_fail"].append((line, il, "unparsable output"))
             continue
@@ -62,8 +67,30 @@ def _chunk_worker(args):
             st["oracle_fail"].append((line, il, "reported push costs sum to %d, displacement of the placement is %d" % (psum, tot)))
             continue
         bad = None
+        if badop >= 0:
+            bad = "getCost (op %d: width %d target %d) changed the state of the legalizer (queue of bounds / cells differ before and after)" % (
+                badop, ops[badop][1], ops[badop][2])
+        st["maxpassed"] = max(st["maxpassed"], maxpassed)
+        st["maxcells"] = max(st["maxcells"], len(pushes))
+        st["passed_gt32"] += maxpassed > 32
+        st["passed_gt64"] += maxpassed > 64
+        st["passed_gt128"] += maxpassed > 128
         for k in range(n - 1):
-            if ops[k][0] == 1 and ops[k + 1][0] == 0 and ops[k][1:] == ops[k + 1][1:] and costs[k] != costs[k + 1]:
+            if ops[k][0] == 1 and ops[k + 1] == ops[k]:
+                st["repeated_queries"] += 1
+                if costs[k] != costs[k + 1] and not bad:
+                    bad = "the same prediction asked twice in a row gives %d then %d (ops %d, %d)" % (costs[k], costs[k + 1], k, k + 1)
+        # a prediction repeated later with no insertion in between must not change either
+        last = {}
+        for k in range(n):
+            if ops[k][0] == 0:
+                last = {}
+            elif ops[k] in last and last[ops[k]] != costs[k] and not bad:
+                bad = "the same prediction, no insertion in between, gives %d then %d (op %d)" % (last[ops[k]], costs[k], k)
+            else:
+                last[ops[k]] = costs[k]
+        for k in range(n - 1):
+            if ops[k][0] == 1 and ops[k + 1][0] == 0 and ops[k][1:] == ops[k + 1][1:] and costs[k] != costs[k + 1] and not bad:
                 bad = "predicted cost %d differs from performed cost %d (op %d)" % (costs[k], costs[k + 1], k)
         if bad:
             st["oracle_fail"].append((line, il, bad))
@@ -91,7 +118,9 @@ def gen_cases(ctx, harness):
     if ctx.quick:
         enum = ["5", "3", "3", "2"]
         nrand = 30000
+        nlong = 1200
     else:
+        nlong = 40000
         enum = ["7", "4", "3", "3"]
         nrand = 1500000
     r1 = subprocess.run([harness, "gen", "enum"] + enum, capture_output=True, text=True, timeout=600)
@@ -101,7 +130,13 @@ def gen_cases(ctx, harness):
     for s in seeds:
         r2 = subprocess.run([harness, "gen", "rand", str(s), str(nrand // len(seeds))], capture_output=True, text=True, timeout=600)
         lines += r2.stdout.strip().split("\n")
-    return lines, nenum, enum
+    nlong_got = 0
+    for s in seeds:
+        r3 = subprocess.run([harness, "gen", "long", str(s + 77), str(nlong // len(seeds))], capture_output=True, text=True, timeout=600)
+        ll = r3.stdout.strip().split("\n")
+        lines += ll
+        nlong_got += len(ll)
+    return lines, nenum, enum, nlong_got
 
 
 def corpus_lines():
@@ -112,9 +147,9 @@ def corpus_lines():
 
 
 def run_cases(ctx, harness, driver, lines):
+    # strided chunks: the long-row cases (heavier on the model side) are spread over all workers
     nchunks = max(1, min(common.NCPU, len(lines) // 2000 + 1))
-    size = (len(lines) + nchunks - 1) // nchunks
-    chunks = [(harness, driver, lines[i:i + size]) for i in range(0, len(lines), size)]
+    chunks = [(harness, driver, lines[i::nchunks]) for i in range(nchunks)]
     with Pool(nchunks) as p:
         return p.map(_chunk_worker, chunks)
 
@@ -151,7 +186,7 @@ def run(ctx):
     proof_ok, proof = common.proof_status(ctx, "C12")
     harness = common.build_harness("rowleg")
     driver = common.build_driver()
-    lines, nenum, enum = gen_cases(ctx, harness)
+    lines, nenum, enum, nlong = gen_cases(ctx, harness)
     lines = corpus_lines() + lines
     stats = run_cases(ctx, harness, driver, lines)
     total = sum(s["n"] for s in stats)
@@ -187,15 +222,27 @@ def run(ctx):
         "distinct_nontrivial": sum(s["nontrivial"] for s in stats),
         "rule": "exhaustive: all histories with segment [b,b+len), b in {0,1}, len<=%s, <=%s cells of width 1..%s that fit, targets in "
                 "[b-%s, e+%s], each push preceded by the query predicting it; random: %d histories (seeded splitmix64) with "
-                "coordinates up to 2^22, interleaved foreign queries, targets inside/near/at both limits/far. non-trivial = some cell "
-                "is displaced from its target (cost>0); distinct = distinct case lines" % (enum[0], enum[1], enum[2], enum[3], enum[3], total - nenum),
+                "coordinates up to 2^22, interleaved foreign queries, targets inside/near/at both limits/far; long rows: %d histories of "
+                "31..200 insertions in one segment (sizes 31-34, 63-65, 127-130, 200 and uniform 50..200; one cluster per cell / all targets "
+                "in a small window / random / sorted with ties; widths 1..3 x scale 1 or 2^2..2^10) with probes (getCost not followed by the "
+                "insertion, asked 2-4 times identically, from the far left, the far right, as wide as the free space) after 33/65/129 "
+                "insertions and at the end, a different cell inserted after the probes, the probes asked again; the harness compares the "
+                "object's state (cells + multiset of bounds) before and after EVERY getCost and counts the bounds each one passes. non-trivial = some cell "
+                "is displaced from its target (cost>0); distinct = distinct case lines" % (enum[0], enum[1], enum[2], enum[3], enum[3], total - nenum - nlong, nlong),
         "exhaustive": True,
         "exhaustive_cases": nenum,
-        "random_cases": total - nenum,
-        "samples": lines[:2] + lines[nenum + 5:nenum + 8],
+        "random_cases": total - nenum - nlong,
+        "long_row_cases": nlong,
+        "samples": lines[:2] + lines[nenum + 5:nenum + 8] + [lines[-1][:400] + " ..."],
         "distribution": {"pushes": sum(s["pushes"] for s in stats), "queries": sum(s["queries"] for s in stats),
                          "cases_with_cell_clamped_at_right_limit": sum(s["clamped"] for s in stats),
-                         "cases_with_cell_pushed_left_of_target": sum(s["pushed_left"] for s in stats)},
+                         "cases_with_cell_pushed_left_of_target": sum(s["pushed_left"] for s in stats),
+                         "cases_with_a_getCost_passing_more_than_32_bounds": sum(s["passed_gt32"] for s in stats),
+                         "cases_with_a_getCost_passing_more_than_64_bounds": sum(s["passed_gt64"] for s in stats),
+                         "cases_with_a_getCost_passing_more_than_128_bounds": sum(s["passed_gt128"] for s in stats),
+                         "max_bounds_passed_by_one_getCost": max(s["maxpassed"] for s in stats),
+                         "max_cells_in_one_segment": max(s["maxcells"] for s in stats),
+                         "identical_predictions_asked_twice_in_a_row": sum(s["repeated_queries"] for s in stats)},
         "model_vs_impl_differences": len(mism),
         "impl_outputs_rejected_by_proved_checker_or_cost_oracle": len(ofail),
         "vm_compute_crosschecked_cases": nvm,
